@@ -149,7 +149,7 @@ func SolveAll(items []struct {
 func (vc *VC) satScript(ctxLen int, extra *Term) string {
 	var sb strings.Builder
 	sb.WriteString("(set-logic ALL)\n")
-	sb.WriteString(vc.e.preamble())
+	sb.WriteString(vc.e.preamble(vc.usesMS(ctxLen, extra)))
 	for _, c := range vc.cmds[:ctxLen] {
 		sb.WriteString(c)
 		sb.WriteByte('\n')
